@@ -62,12 +62,10 @@ def date_iso(P):
     return h
 
 
-@lemma({"hh": int, "mi": int, "ss": int, "f": int}, params=lambda tier, seed: [[p, b, z] for p in ("iso", "long-iso") for b in range(0, 24, 6)
-                                                                              for z in ((0, 3, 6, 9) if tier == "thorough" else (0,))],
-       budget=300, thorough_budget=1500, per_path=40,
-       bounds="every time of day (partitioned by 6-hour block and by the number of significant fraction digits: 0 in quick; 3, 6, 9 in "
-              "thorough): the extended ISO patterns write exactly hh:mm:ss[.fraction] (no trailing zeros; the long form exactly nine digits) "
-              "and read that text back")
+@lemma({"hh": int, "mi": int, "ss": int, "f": int}, params=lambda tier, seed: [[p, b, 0] for p in ("iso", "long-iso") for b in range(0, 24, 6)],
+       budget=300, thorough_budget=600, per_path=40,
+       bounds="every whole-second time of day (partitioned by 6-hour block): the extended ISO patterns write exactly hh:mm:ss (the long form "
+              "adds nine zero digits) and read that text back; fractions: time_iso_fraction")
 def time_iso(P):
     pat = LocalTimePattern.extended_iso if P[0] == "iso" else LocalTimePattern.long_extended_iso
     nine = P[0] == "long-iso"
@@ -87,6 +85,31 @@ def time_iso(P):
         n = ((hh * 60 + mi) * 60 + ss) * NS + f
         t = LocalTime._ctor(nanoseconds=n)
         ref = ref_time(hh, mi, ss, f, nine)
+        if pat.format(t) != ref:
+            return False
+        r = pat.parse(ref)
+        return r.success and r.value.nanosecond_of_day == n
+    return h
+
+
+@lemma({"f": int}, params=lambda tier, seed: [[p, sig] for p in ("iso", "long-iso") for sig in (range(1, 7) if tier == "thorough" else (1, 3))],
+       budget=300, thorough_budget=600, per_path=40,
+       bounds="every fraction of a second with exactly the given number of significant digits (quick: 1 and 3; thorough: 1..6; 7-9 digits multiply the "
+              "paths beyond the budget and are outside this lemma - the digit scaling itself is parse_fraction_kernel, for 1..9 digits) at the fixed time 12:34:56 "
+              "(the fraction field is rendered and parsed after the hh:mm:ss fields, which time_iso covers): the text is 12:34:56.<digits> without "
+              "trailing zeros (long form: nine digits) and reads back to the same nanosecond")
+def time_iso_fraction(P):
+    pat = LocalTimePattern.extended_iso if P[0] == "iso" else LocalTimePattern.long_extended_iso
+    nine = P[0] == "long-iso"
+    sig = P[1]
+
+    def h(f):
+        assume(1 <= f <= 999999999)
+        assume(f % (10 ** (9 - sig)) == 0)              # at most `sig` significant digits ...
+        assume(f % (10 ** (10 - sig)) != 0)             # ... and the last of them is not zero
+        n = ((12 * 60 + 34) * 60 + 56) * NS + f
+        t = LocalTime._ctor(nanoseconds=n)
+        ref = ref_time(12, 34, 56, f, nine)
         if pat.format(t) != ref:
             return False
         r = pat.parse(ref)
